@@ -25,7 +25,8 @@ Inductive c03_case :=
 Inductive c03_obs :=
 | OCrowd (r : list (nat * Ext float))    (* (id, distance) of every member, sorted by id: the order the call
                                             leaves the list in is not part of the property and not compared *)
-| OIds (r : list nat)                    (* ids of the truncated population, in order *)
+| OIds (r : list nat)                    (* ids of the truncated population, sorted: WHO survives is compared,
+                                            the order of the returned list is not part of the property *)
 | OWin (w : nat)                         (* id of the tournament winner *)
 | OErr.
 
@@ -75,7 +76,7 @@ Definition c03_run (c : c03_case) : c03_obs :=
                          (map (fun p => (fst (fst p), snd p)) (fcrowding f)))
       else OErr
   | CTrunc pop order k =>
-      match ftruncate pop order k with Some r => OIds (map c3id r) | None => OErr end
+      match ftruncate pop order k with Some r => OIds (ssort Nat.leb (map c3id r)) | None => OErr end
   | CTour pop smp coin =>
       match ftournament pop smp coin with Some w => OWin (c3id w) | None => OErr end
   end.
